@@ -257,6 +257,8 @@ class Executor:
             if isinstance(t, Seq) and isinstance(v.t, Tup) and all(e == t.elt for e in v.t.elts):
                 items = [Val(t.elt, v.t.proj(v.z, i)) for i in range(len(v.t.elts))]
                 return self.seq_of_items(items, t)
+            if isinstance(t, Seq) and isinstance(v.t, Seq) and isinstance(v.t.elt, Opt) and v.t.elt.elt == t.elt:
+                return self.unopt_seq(v, st)
             if isinstance(t, List) and isinstance(v.t, List) and t.elt == v.t.elt:
                 return v
             if isinstance(t, Obj) and isinstance(v.t, Obj) and t.cls in self.reg.mro(v.t.cls):
@@ -287,6 +289,18 @@ class Executor:
         if isinstance(v, PyConst) and isinstance(v.v, str) and t == Str:
             return Val(Str, z3.StringVal(v.v))
         raise Untranslatable(f"cannot coerce {v!r} to {t}")
+
+    def unopt_seq(self, v, st):
+        """Seq(Opt(T)) used where Seq(T) is needed (e.g. summed after an `all(x is not None ...)` test): a FUNCTION of the
+        sequence (same term at every use), defined pointwise where the entries are not None."""
+        ot = v.t.elt
+        f = z3.Function(f"unopt_{ot.elt.name()}", v.z.sort(), z3.SeqSort(ot.elt.sort()))
+        r = f(v.z)
+        i = fresh("i", z3.IntSort())
+        st.assume(z3.Length(r) == z3.Length(v.z))
+        st.assume(z3.ForAll([i], z3.Implies(z3.And(0 <= i, i < z3.Length(v.z), z3.Not(ot.is_none(v.z[i]))),
+                                            r[i] == ot.val(v.z[i]))))
+        return Val(Seq(ot.elt), r)
 
     def seq_of_items(self, items, t):
         if not items:
@@ -469,8 +483,21 @@ class Executor:
 
     def card_axioms(self, st, c):
         """card >= 0 and (card == 0 <=> empty)."""
-        n = self.card(st, c)
+        ids = getattr(self, "_cur_bound_ids", None)
         k = fresh("k", c.t.k.sort())
+        if ids:
+            from .calls import _mentions
+            if _mentions(c.z, ids):
+                # the container depends on a quantified variable: state the axiom for every container of this type
+                # (a closed formula), instead of a fact about the bound variable that would leak out of its scope
+                ca = self.heap.get(st, ("card", c.t.name()))
+                da = self.heap.get(st, ("dom", c.t.name(), c.t.k))
+                r = fresh("r", z3.IntSort())
+                st.assume(z3.ForAll([r], z3.And(z3.Select(ca, r) >= 0, (z3.Select(ca, r) == 0) ==
+                                                z3.ForAll([k], z3.Not(z3.Select(z3.Select(da, r), k)))),
+                                    patterns=[z3.Select(ca, r)]))
+                return
+        n = self.card(st, c)
         d = self.dom(st, c)
         st.assume(n >= 0)
         st.assume((n == 0) == z3.ForAll([k], z3.Not(z3.Select(d, k))))
